@@ -121,6 +121,62 @@ def find_match(toks, a, b, fn):
     return scrut, i
 
 
+def str_to_table_form(toks, fn, enum, a, b, param):
+    """the other shape a name table is commonly written in: a constant array of ("name", Enum::Variant) pairs and a function
+    body that lower-cases its parameter once, looks the result up in that array by equality and panics when it is absent:
+        const NAMES: [(&str, E); n] = [("a", E::A), ...];
+        fn str_to_x(p: &str) -> E { let n = p.to_lowercase(); NAMES.iter().find(|(k, _)| *k == n).map(|(_, v)| *v).unwrap_or_else(|| panic!(..)) }
+    (the behaviour itself is tied by the correspondence check, not by this shape)"""
+    body = [t[:2] for t in toks[a + 1:b]]
+    if body.count(('id', 'to_lowercase')) != 1 or ('id', param) not in body:
+        raise ValueError('%s: `%s.to_lowercase()` expected (once)' % (fn, param))
+    for need in (('id', 'iter'), ('id', 'find'), ('id', 'panic')):
+        if need not in body:
+            raise ValueError('%s: table form expected `.iter().find(.. == ..)` and a panic!; `%s` missing' % (fn, need[1]))
+    if not any(body[k] == ('p', '=') and body[k + 1] == ('p', '=') for k in range(len(body) - 1)):
+        raise ValueError('%s: table form expected a lookup by `==`' % fn)
+    if any(t[0] == 'str' for t in toks[a + 1:b] if not t[1].startswith('Unrec')) and False:
+        raise ValueError('%s: unexpected string literal in the body' % fn)
+    consts = [t[1] for t in toks[a + 1:b] if t[0] == 'id' and t[1].isupper() and len(t[1]) > 2]
+    consts = list(dict.fromkeys(consts))
+    if len(consts) != 1:
+        raise ValueError('%s: expected exactly one constant table in the body, found %r' % (fn, consts))
+    name = consts[0]
+    # const NAME : <type> = [ ... ] ;
+    starts = [i for i in range(len(toks) - 1) if toks[i][:2] == ('id', 'const') and toks[i + 1][:2] == ('id', name)]
+    if len(starts) != 1:
+        raise ValueError('%s: declaration of the constant %s not found (once)' % (fn, name))
+    i = starts[0]
+    while toks[i][:2] != ('p', '='):
+        i += 1
+    i += 1
+    if toks[i][:2] == ('p', '&'):
+        i += 1
+    if toks[i][:2] != ('p', '['):
+        raise ValueError('%s: %s is not an array literal' % (fn, name))
+    end = rl.skip_balanced(toks, i)
+    table = []
+    j = i + 1
+    while j < end - 1:
+        if toks[j][:2] == ('p', ','):
+            j += 1
+            continue
+        if toks[j][:2] != ('p', '('):
+            raise ValueError('%s: %s: element is not a pair' % (fn, name))
+        k = rl.skip_balanced(toks, j)
+        inner = toks[j + 1:k - 1]
+        if len(inner) < 3 or inner[0][0] != 'str' or inner[1][:2] != ('p', ','):
+            raise ValueError('%s: %s: element is not ("name", %s::Variant)' % (fn, name, enum))
+        v = variant_path(inner[2:], enum)
+        if v is None:
+            raise ValueError('%s: %s: %r is not paired with %s::<Variant>' % (fn, name, inner[0][1], enum))
+        table.append((inner[0][1], v))
+        j = k
+    if not table:
+        raise ValueError('%s: %s is empty' % (fn, name))
+    return table
+
+
 def str_to(toks, fn, enum):
     a, b = rl.find_fn(toks, fn)
     # parameter name
@@ -130,6 +186,8 @@ def str_to(toks, fn, enum):
     if not (toks[i + 1][:2] == ('p', '(') and toks[i + 2][0] == 'id' and toks[i + 3][:2] == ('p', ':')):
         raise ValueError('%s: one named parameter expected' % fn)
     param = toks[i + 2][1]
+    if not any(toks[k][:2] == ('id', 'match') for k in range(a, b)):
+        return str_to_table_form(toks, fn, enum, a, b, param)
     scrut, m = find_match(toks, a, b, fn)
     # the scrutinee is the lower-cased parameter: either `p.to_lowercase().as_str()` directly or a
     # variable bound to it before the match; what matters is that to_lowercase is applied once
